@@ -361,6 +361,12 @@ def gen_link(r):
     else:
         t = gen.choice(r, [s for s in SEGS if s != f])
     ov = "*" if gen.chance(r, 0.2) else gen.gen_cigar(r, "MIDP=XH", maxops=5)
+    if ov != "*" and gen.fair(r, 0.06):
+        # one operation of a length no machine integer holds (the CIGAR syntax puts no bound on lengths)
+        ops_ = list(G.canon_cigar(ov))
+        i = r.randrange(len(ops_))
+        ops_[i] = (gen.choice(r, [2 ** 31, 2 ** 63 - 1, 2 ** 63, 2 ** 64 + 1, 10 ** 25]), ops_[i][1])
+        ov = "".join("%d%s" % (n, o) for n, o in ops_)
     return [f, fo, t, to, ov]
 
 
